@@ -92,7 +92,7 @@ deriving Repr, Inhabited
 inductive RestVal
   | direct (v : V)                                      -- `only_named`
   | arglist (pos : List V) (named : List (Name × V))    -- `args.into()`
-deriving Repr, Inhabited
+deriving Repr, Inhabited, DecidableEq
 
 structure Plan where
   binds : List (Name × Binding)         -- in parameter order
